@@ -1,6 +1,15 @@
 // Package blockexec (C06): one real block is executed N times through the real Block.ComputeState on
 // the same prior state under different environments (cold / warm state cache, GOMAXPROCS 1 / 16,
 // repeated runs so that Go's randomised map iteration varies); every run logs its result tuple.
+//
+// The prior state is a real predecessor block P (built once: a transfer, a pour and successful settings
+// updates of the faucet, miner (settings and globals) and storage contracts, so that the accounts and the
+// configuration objects the state cache keeps have been read and written).  "warm" = the global state cache of a node that has executed P itself (P is re-executed
+// through Block.ComputeState on a fresh cache, which commits P's values, then the block under test
+// runs); "cold" = a node that starts with an empty state cache and reads everything from the trie
+// (restart, cache gap); "used" = the cache as the previous runs of the same block left it (a node that
+// executes the block a second time).  A block built directly on genesis would never see a warm cache:
+// nothing is cached under the genesis hash.
 package blockexec
 
 import (
@@ -13,6 +22,7 @@ import (
 
 	"0chain.net/chaincore/block"
 	"0chain.net/chaincore/transaction"
+	"0chain.net/core/common"
 	"0chain.net/core/encryption"
 
 	"github.com/0chain/common/core/util"
@@ -25,8 +35,10 @@ import (
 func init() { vc.Register("blockexec", Run) }
 
 type drv struct {
-	w  *world.World
-	rc *rec.Recorder
+	w       *world.World
+	rc      *rec.Recorder
+	prior   *block.Block // P: the executed predecessor of every block under test
+	baseNow int64
 }
 
 func Run(a vc.Args) {
@@ -35,6 +47,10 @@ func Run(a vc.Args) {
 	rc := rec.New(a.Out)
 	defer rc.Close()
 	d := &drv{w: w, rc: rc}
+	d.buildPrior()
+	if os.Getenv("VERIF_DEBUG") != "" {
+		defer func() { fmt.Fprintf(os.Stderr, "DEBUG times: warm=%v generator=%v runs=%v\n", tWarm, tGen, tRun) }()
+	}
 	runs := a.N
 	if runs < 3 {
 		runs = 3
@@ -52,6 +68,8 @@ func Run(a vc.Args) {
 		}
 		rc.TraceID = id - 1
 		rc.Reset(rec.M{"family": "blockexec", "id": id, "kinds": kinds, "runs": runs}, nil)
+		// block time (and with it the block hash) is a function of the trace id, not of how many traces ran before
+		w.Now = common.Timestamp(d.baseNow + 10*int64(id))
 		d.block(kinds, runs, int64(id))
 	}
 }
@@ -64,6 +82,78 @@ func badMap(keys ...string) map[string]interface{} {
 		f[k] = "not-a-number-" + k
 	}
 	return map[string]interface{}{"fields": f}
+}
+
+// fields builds a settings-update payload from key, value pairs.
+func fields(kv ...string) map[string]interface{} {
+	f := map[string]string{}
+	for i := 0; i+1 < len(kv); i += 2 {
+		f[kv[i]] = kv[i+1]
+	}
+	return map[string]interface{}{"fields": f}
+}
+
+// buildPrior builds the predecessor block P on genesis (once per process, deterministic): a transfer, a
+// pour and one successful settings update per configuration object, so that the executing node's state
+// cache holds the accounts and the configuration objects (P is re-executed for every warm phase: kept short).
+func (d *drv) buildPrior() {
+	w := d.w
+	w.BeginBlock(w.Genesis)
+	for i, k := range []string{"send", "pour", "govok", "govok_miner", "govok_storage", "prior_globals"} {
+		var ts world.TxnSpec
+		switch k {
+		case "prior_globals":
+			ts = d.spec("gov2_globals", i)
+			ts.Input = fields("server_chain.block.max_block_cost", "9000")
+		default:
+			ts = d.spec(k, i)
+		}
+		res := w.Do(ts)
+		if os.Getenv("VERIF_DEBUG") != "" {
+			fmt.Fprintf(os.Stderr, "DEBUG prior %s -> %s %s\n", k, res.Class, res.Err)
+		}
+		if res.Class == "rejected" || res.Class == "panic" {
+			rec.Fatal("blockexec: prior block: %s: %s %s %s", k, res.Class, res.Err, res.Panic)
+		}
+	}
+	d.prior = w.EndBlock()
+	d.baseNow = int64(w.Now)
+}
+
+// twin returns a fresh, unexecuted block object with the identity and the transactions of b on top of prev.
+func (d *drv) twin(b *block.Block, prev *block.Block, root util.Key, txns []*transaction.Transaction) *block.Block {
+	t := block.NewBlock(d.w.Chain.GetKey(), b.Round)
+	t.MinerID = b.MinerID
+	t.CreationDate = b.CreationDate
+	t.SetPreviousBlock(prev)
+	t.SetRoundRandomSeed(b.GetRoundRandomSeed())
+	t.Hash = b.Hash
+	t.ClientStateHash = root
+	for _, x := range txns {
+		c := x.Clone()
+		c.Status, c.TransactionOutput, c.OutputHash = 0, "", ""
+		_ = c.ComputeProperties()
+		t.Txns = append(t.Txns, c)
+	}
+	return t
+}
+
+// warm gives the chain the state cache of a node that has just executed P: a fresh cache, then P through
+// the real Block.ComputeState (which commits P's values to the global cache).
+// wall time spent per stage (printed with VERIF_DEBUG)
+var tWarm, tGen, tRun time.Duration
+
+func (d *drv) warm() {
+	t0 := time.Now()
+	defer func() { tWarm += time.Since(t0) }()
+	w := d.w
+	w.Chain.SetupStateCache()
+	p := d.twin(d.prior, w.Genesis, d.prior.ClientStateHash, d.prior.Txns)
+	ctx, cancel := context.WithTimeout(context.Background(), 30*time.Second)
+	defer cancel()
+	if err := p.ComputeState(ctx, w.Chain); err != nil {
+		rec.Fatal("blockexec: re-execution of the prior block failed: %v", err)
+	}
 }
 
 func (d *drv) spec(kind string, i int) world.TxnSpec {
@@ -103,6 +193,18 @@ func (d *drv) spec(kind string, i int) world.TxnSpec {
 		return sc(w.Owner, "faucetsc", "update-settings", badMap("pour_amount", "max_pour_amount", "periodic_limit", "global_limit"), 0)
 	case "govok":
 		return sc(w.Owner, "faucetsc", "update-settings", map[string]interface{}{"fields": map[string]string{"pour_amount": "0.00000006"}}, 0)
+	// a settings update that is applied PARTIALLY and then fails: the entries are applied in key order to the
+	// transaction's working copy of the configuration object (a map-typed cost entry and a scalar first), a
+	// later entry is invalid; nothing of it may survive the transaction - neither in the trie nor in a cache
+	case "govpart_miner":
+		return sc(w.Owner, "minersc", "update_settings", fields("cost.add_miner", "777", "cost.wait", "778", "max_delegates", "177", "max_n", "not-a-number"), 0)
+	case "govpart_storage":
+		return sc(w.Owner, "storagesc", "update_settings", fields("cost.new_allocation_request", "777", "max_blobbers_per_allocation", "37", "max_stake", "not-a-number"), 0)
+	// a successful settings update of the same contracts (reads the configuration object and saves it)
+	case "govok_miner":
+		return sc(w.Owner, "minersc", "update_settings", fields("max_charge", "0.4"), 0)
+	case "govok_storage":
+		return sc(w.Owner, "storagesc", "update_settings", fields("max_charge", "0.4"), 0)
 	}
 	rec.Fatal("unknown kind %q", kind)
 	return world.TxnSpec{}
@@ -110,8 +212,11 @@ func (d *drv) spec(kind string, i int) world.TxnSpec {
 
 func (d *drv) block(kinds []string, runs int, salt int64) {
 	w := d.w
-	// the generator's own execution (through UpdateState directly), on a fork from genesis
-	gen := w.BeginBlock(w.Genesis)
+	// the generator's own execution (through UpdateState directly) on top of P, with the state cache of a
+	// node that executed P (a generator always has)
+	d.warm()
+	tg := time.Now()
+	gen := w.BeginBlock(d.prior)
 	var txns []*transaction.Transaction
 	nonce := map[string]int64{}
 	for i, k := range kinds {
@@ -134,36 +239,38 @@ func (d *drv) block(kinds []string, runs int, salt int64) {
 	}
 	root := w.CurState.GetRoot()
 	changes := w.CurState.GetChangeCount()
-	d.emit("generator", "cold", runtime.GOMAXPROCS(0), util.ToHex(root), changes, txns, gen.Events, "")
-	w.Cur = nil // abandon the generator's block object; verifiers recompute from genesis
+	d.emit("generator", "warm", runtime.GOMAXPROCS(0), util.ToHex(root), changes, txns, gen.Events, "")
+	tGen += time.Since(tg)
+	w.Cur = nil // abandon the generator's block object; verifiers recompute from P
 
 	for r := 0; r < runs; r++ {
 		procs := 16
 		if r%2 == 1 {
 			procs = 1
 		}
-		old := runtime.GOMAXPROCS(procs)
-		cache := "warm"
-		b := block.NewBlock(w.Chain.GetKey(), gen.Round)
-		b.MinerID = gen.MinerID
-		b.CreationDate = gen.CreationDate
-		b.SetPreviousBlock(w.Genesis)
-		b.SetRoundRandomSeed(gen.GetRoundRandomSeed())
-		b.Hash = gen.Hash
-		if r%3 == 0 {
+		// per six runs: warm, warm, cold, used, cold, used.  The first two runs continue on the generator's
+		// cache (a node that executed P and has already seen the block's transactions once, as every
+		// generator and every re-executing verifier has); later warm phases start from a re-executed P
+		cache := "used"
+		switch r % 6 {
+		case 0:
+			if r > 0 {
+				d.warm()
+			}
+			cache = "warm"
+		case 1:
+			cache = "warm"
+		case 2, 4:
 			// a fresh global state cache: every value is read from the trie
 			w.Chain.SetupStateCache()
 			cache = "cold"
 		}
-		b.ClientStateHash = root
-		for _, t := range txns {
-			c := t.Clone()
-			c.Status, c.TransactionOutput, c.OutputHash = 0, "", ""
-			_ = c.ComputeProperties()
-			b.Txns = append(b.Txns, c)
-		}
+		old := runtime.GOMAXPROCS(procs)
+		b := d.twin(gen, d.prior, root, txns)
 		ctx, cancel := context.WithTimeout(context.Background(), 30*time.Second)
+		tr := time.Now()
 		err := b.ComputeState(ctx, w.Chain)
+		tRun += time.Since(tr)
 		cancel()
 		runtime.GOMAXPROCS(old)
 		es := ""
